@@ -69,7 +69,7 @@ def check(tier, seed, procs):
     if tier != 'quick':
         setups = gen(3, 'thorough')[1] + setups[:: 7]
     depth = 7 if tier == 'quick' else 9
-    res = bf.run(MONITORS, setups, tier, depth, procs, opts=OPTS, time_budget=100 if tier == 'quick' else 1500)
+    res = bf.run(MONITORS, setups, tier, depth, procs, opts=OPTS, time_budget=100 if tier == 'quick' else 900)
     cov = bf.coverage(res, f'all DAGs on {n} jobs x update split x always-run choices x parent-reference style (update-relative / absolute ids) = {len(setups)} programs; depth {depth}; '
                            f'ops: client requests of update 2, scheduler sweep, worker success/failure, canceller sweeps',
                       {'programs': len(setups)})
